@@ -113,7 +113,7 @@ def edf_spec(kind):
         pred = T.tand(T.cmp('Gt', Do, T.add(Dt, A)), T.cmp('Gt', sn(orbf, n(1)), n(0)))
         pred = T.substitute(pred, {O: T.bv(0)})
         val = T.substitute(T.pos(T.sub(seg, n(1))), {O: T.bv(0)})
-        B = T.root(('optor', ('maxof', ('map', ('filter', ('elems', ot), ('lam', 0, pred)), ('lam', 0, val))), n(0)))
+        B = T.tmax(n(0), T.root(('maxof', ('map', ('filter', ('elems', ot), ('lam', 0, pred)), ('lam', 0, val)))))
     return dict(
         family='EDF', kind=kind, tua=tua, others=ot, limit=limit, blocking=B, rem=rem,
         BW=plus(interf_bw, sn(tua, X)),
@@ -269,6 +269,10 @@ class RtaModel:
             if is_tag(inner, 'optor'):
                 self.default = inner[2]
                 inner = T.unroot(inner[1])
+            elif is_tag(inner, 'max') and len(inner[1]) == 2 and any(T.is_const(c) for c in inner[1]):
+                # max().unwrap_or(k) over non-negative values is written max{k, max over the set}
+                self.default = [c for c in inner[1] if T.is_const(c)][0]
+                inner = T.unroot([c for c in inner[1] if not T.is_const(c)][0])
             mx = expect(inner, 'maxof', 'FIFO result')
             m = expect(mx[1], 'map', 'FIFO per-offset map')
             self.space = m[1]
